@@ -17,7 +17,7 @@ import treegen
 from common import Stats
 from treegen import Node
 
-IDS = [0, 1, 65534, 54321, 54322]
+IDS = [0, 1, 65534, 54321, 54322, 4, 5, 6, 60, 12]      # (sync 4:65534, games 5:60, man 6:12: accounts whose uid differs from their gid)
 
 
 def build_sandbox(rng, sb, nperm):
